@@ -176,34 +176,12 @@ def switch_obligations(ix, R):
             if isinstance(n, ast.Subscript) and isinstance(n.slice, ast.Constant) \
                     and n.slice.value == 'opacity_method' and isinstance(n.ctx, ast.Load):
                 sites.append((f, n))
+    seen_f = set()
     for f, n in sites:
-        # parent compare
-        cmp_ = None
-        for c in ast.walk(f.node):
-            if isinstance(c, ast.Compare) and c.left is n:
-                cmp_ = c
-        ok = (unparse(n.value) == 'GlobalCache()' and cmp_ is not None and
-              len(cmp_.ops) == 1 and isinstance(cmp_.ops[0], ast.Eq) and
-              isinstance(cmp_.comparators[0], ast.Constant) and
-              cmp_.comparators[0].value == 'ktables')
-        R.check('4.read', 'DOM', f.site,
-                "opacity_method is read from GlobalCache() and compared == 'ktables'",
-                ok, key='%s' % unparse(cmp_ or n), detail='reads %s' % unparse(cmp_ or n),
-                loc=f.loc(n))
-        # cache selection under the test
-        ifs = [s for s in ast.walk(f.node) if isinstance(s, ast.If)]
-        for s in ifs:
-            if cmp_ is not None and (s.test is cmp_ or unparse(s.test) == 'self._use_ktables'):
-                body = ' '.join(unparse(x) for x in s.body)
-                orelse = ' '.join(unparse(x) for x in s.orelse)
-                if 'Cache()' not in body + orelse:
-                    continue
-                ok = 'KTableCache()' in body and 'KTableCache()' not in orelse and \
-                    (not s.orelse or 'OpacityCache()' in orelse)
-                R.check('4.select', 'DOM', f.site,
-                        'k-table cache selected in the ktables branch, cross-section cache otherwise',
-                        ok, key='%s' % body[:80], detail='branch selects %s / %s' % (body[:80], orelse[:80]),
-                        loc=f.loc(s))
+        if f.site in seen_f:
+            continue
+        seen_f.add(f.site)
+        _switch_site(ix, R, f, n)
     if len(sites) < 4:
         R.error('4.sites', 'DOM', 'taurex', 'at least the four confirmed reads of opacity_method exist',
                 'only %d reads found' % len(sites))
@@ -246,6 +224,99 @@ def switch_obligations(ix, R):
         R.check('4.abs', 'DOM', site, 'prepare_each sets _use_ktables from the switch first, picks KTableCache iff it is set, resets the quadrature weights and takes them from the first k-table of the call',
                 len(st) == 2 and not why, key='; '.join(why) or 'stores %d' % len(st),
                 detail='; '.join(why), loc=f.loc())
+
+
+def _event_rfs(e):
+    from sa.algebra import RF as _RF
+    for k in ('value', 'test', 'target'):
+        v = getattr(e, k, None)
+        if isinstance(v, _RF):
+            yield v
+    for v in list(getattr(e, 'args', None) or []) + list((getattr(e, 'kw', None) or {}).values()):
+        if isinstance(v, _RF):
+            yield v
+    v = getattr(e, 'recv_rf', None)
+    if isinstance(v, _RF):
+        yield v
+    for g in e.guards:
+        if isinstance(g.rf, _RF):
+            yield g.rf
+
+
+def _switch_site(ix, R, f, n):
+    """one function that reads the opacity_method switch: the value read is only ever compared == 'ktables', and
+    the k-table cache is used exactly where that comparison holds.  Decided on the flow (forward substitution of
+    locals and of `self._use_ktables`), so hoisting the test into a variable, negating the `if` or swapping its arms
+    changes nothing."""
+    from sa.algebra import RF as _RF, _rfs_in
+    fl = mkflow(ix, f, forward_attrs=True)
+    tab = fl.tab
+    read = spec(fl, "GlobalCache()['opacity_method']")
+    ra = read.single_atom()
+    want = spec(fl, "GlobalCache()['opacity_method'] == 'ktables'")
+    wa = want.single_atom()
+    atoms = set()
+    for e in fl.events:
+        for rf in _event_rfs(e):
+            atoms |= rf.all_atoms()
+    users = []
+    for a in atoms:
+        at = tab.atoms[a]
+        for arg in at.args:
+            for r in _rfs_in(arg):
+                if ra in r.atoms() and a != wa:
+                    users.append(tab.fmt_atom(a)[:80])
+    R.check('4.read', 'DOM', f.site,
+            "opacity_method is read from GlobalCache() and only ever compared == 'ktables'",
+            ra in atoms and not users, key='%s' % sorted(set(users)), detail='used as %s' % sorted(set(users)),
+            loc=f.loc(n))
+
+    def mentions(rf, fn):
+        return any(tab.atoms[a].head in ('call', 'mcall') and tab.atoms[a].extra and tab.atoms[a].extra[0] == fn
+                   for a in rf.all_atoms())
+    why = []
+    nsel = 0
+    for e in fl.events:
+        if e.kind in ('if', 'loop', 'def'):
+            continue
+        pol = None
+        for g in e.guards:
+            if g.rf is not None and tab.equal(g.rf, want):
+                pol = g.positive
+        vals = [rf for k in ('value',) for rf in [getattr(e, k, None)] if isinstance(rf, _RF)]
+        vals += [v for v in (getattr(e, 'args', None) or []) if isinstance(v, _RF)]
+        if isinstance(getattr(e, 'recv_rf', None), _RF):
+            vals.append(e.recv_rf)
+        for rf in vals:
+            # merged selections guard(c, A, B): the k-table cache may only sit in the true arm of the switch
+            inner = set()
+            for a in rf.all_atoms():
+                at = tab.atoms[a]
+                if at.head == 'guard' and isinstance(at.args[0], _RF) and tab.equal(at.args[0], want):
+                    nsel += 1
+                    if mentions(at.args[2], 'fn:KTableCache'):
+                        why.append('KTableCache() selected when opacity_method is not ktables: %s' % unparse(e.node)[:70])
+                    if mentions(at.args[1], 'fn:OpacityCache') and not mentions(at.args[1], 'fn:KTableCache'):
+                        why.append('OpacityCache() selected when opacity_method is ktables: %s' % unparse(e.node)[:70])
+                    for x in at.args[1:]:
+                        inner |= x.all_atoms()
+            rest = [a for a in rf.all_atoms() if a not in inner]
+
+            def m(fn):
+                return any(tab.atoms[a].head in ('call', 'mcall') and tab.atoms[a].extra and
+                           tab.atoms[a].extra[0] == fn for a in rest)
+            if m('fn:KTableCache'):
+                nsel += 1
+                if pol is not True:
+                    why.append('KTableCache() used %s: %s' % (
+                        'when opacity_method is not ktables' if pol is False else 'regardless of opacity_method',
+                        unparse(e.node)[:70]))
+            if m('fn:OpacityCache') and pol is True:
+                why.append('OpacityCache() used in the ktables branch: %s' % unparse(e.node)[:70])
+    if nsel:
+        R.check('4.select', 'DOM', f.site,
+                'the k-table cache is used exactly where opacity_method == ktables holds, the cross-section cache otherwise',
+                not why, key='; '.join(sorted(set(why)))[:300], detail='; '.join(sorted(set(why))), loc=f.loc(n))
 
 
 MUTANTS = [
